@@ -117,16 +117,17 @@ func calleeKey(f *ssa.Function) string {
 }
 
 func (e *Exec) havocAll(st *State) {
+	na := e.ctx.fresh("alloc", SInt)
+	st.pc = append(st.pc, Ge(na, st.alloc))
+	st.alloc = na
 	for name, srt := range e.ctx.heapSort {
 		if strings.HasPrefix(name, "G:") && e.immutableGlobal(name) {
 			continue
 		}
 		st.heap[name] = e.ctx.fresh("havoc."+name, srt)
+		e.ctx.closed(name, st.heap[name], st.alloc)
 	}
 	e.markHavoc(st, "H:", "A:", "M:")
-	na := e.ctx.fresh("alloc", SInt)
-	st.pc = append(st.pc, Ge(na, st.alloc))
-	st.alloc = na
 }
 
 func (e *Exec) immutableGlobal(name string) bool { return true }
@@ -227,6 +228,10 @@ func (e *Exec) applyContract(fr *frame, st *State, ci ssa.CallInstruction, calle
 		e.oblige(st, fmt.Sprintf("%s/call-pre:%s:%s", cname, sp.Name, rq.Label), props, g, e.ld.pos(ci.Pos()))
 		st.pc = append(st.pc, g)
 	}
+	if sp.Decreases == nil && callee == e.top {
+		e.oblige(st, fmt.Sprintf("%s/decreases:%s", cname, sp.Name), e.propsFor(fr, "safety"), BoolLit(false),
+			"recursive call without a termination measure in the contract ("+e.ld.pos(ci.Pos())+")")
+	}
 	if sp.Decreases != nil && callee == e.top {
 		// recursive call: the measure must decrease
 		m, err := e.evalSpec(sp.Decreases, env)
@@ -235,10 +240,10 @@ func (e *Exec) applyContract(fr *frame, st *State, ci ssa.CallInstruction, calle
 			e.oblige(st, fmt.Sprintf("%s/decreases:%s", cname, sp.Name), e.propsFor(fr, "safety"), And(Lt(m.L[0], m0.L[0]), Ge(m0.L[0], IntLit(0))), e.ld.pos(ci.Pos()))
 		}
 	}
-	e.havocClasses(st, sp.Modifies)
 	na := e.ctx.fresh("alloc", SInt)
 	st.pc = append(st.pc, Ge(na, st.alloc))
 	st.alloc = na
+	e.havocClasses(st, sp.Modifies)
 	res := e.freshSV("res."+callee.Name(), rt)
 	e.wfAssume(st, res)
 	if sp.Functional != "" {
@@ -314,6 +319,7 @@ func (e *Exec) havocClasses(st *State, prefixes []string) {
 			if strings.HasPrefix(name, p) {
 				st.heap[name] = e.ctx.fresh("havoc."+name, srt)
 				st.written[name] = true
+				e.ctx.closed(name, st.heap[name], st.alloc)
 			}
 		}
 		e.markHavoc(st, p)
